@@ -21,7 +21,7 @@ for pid in props:
 na=[{"property_id":p,"reason":spec['not_applicable'].get(p,"check not built yet in this framework (see DESIGN.md §5 for the planned model-checking design)")} for p in props if p not in spec['checks']]
 m={"version":1,
  "setup_cmd":"bin/setup",
- "hooks":{"guard":"verif","enable":"no source hooks: instrumentation is injected at build time by `go build -overlay` generated from the current /repo tree (bin/check → bin/mkoverlay-bin); the build tag `verif` is reserved and unused","baseline_off_cmd":"cd /repo && go test -vet=off -count=1 ./...","source_commits":[],"add_only":True},
+ "hooks":{"guard":"verif","enable":"no source hooks: instrumentation is injected at build time by `go build -overlay` generated from the current /repo tree (bin/check → bin/mkoverlay-bin); the build tag `verif` is reserved and unused","baseline_off_cmd":"cd /repo && GOFLAGS=-mod=mod go test -json -vet=off -count=1 -timeout 25m ./...","source_commits":[],"add_only":True},
  "engines":spec.get("engines",[]),
  "checks":checks,
  "not_applicable":na,
